@@ -655,7 +655,7 @@ def run_resolve_case(ctx: Any, store: extsvc.Store, case: dict[str, Any]) -> Non
     from vgi_rpc.external import ExternalLocationConfig, make_external_location_batch, resolve_external_location
 
     objs = [object_bytes(o) for o in case["objects"]]
-    url = store.backend.generate_upload_url(SCHEMAS[0]).download_url      # a fresh blob id; nothing stored yet
+    url = store.alloc()["download_url"]      # a fresh blob id; nothing stored yet
     attempt = {"n": 0}
 
     def before_each_fetch() -> None:
@@ -1027,12 +1027,16 @@ def run(ctx: Any) -> None:
 def _run(ctx: Any, rng: Any, store: extsvc.Store) -> None:
     thorough = ctx.tier == "thorough"
     # ---- K-resolve
-    for _ in range(ctx.budget(220, 4000)):
+    for _ in range(ctx.budget(300, 4000)):
         run_resolve_case(ctx, store, gen_resolve_case(rng))
     # ---- corpus: transparency over the whole matrix, then the corruption list on its streams
     corpus = _corpus()
     for j, (desc, script) in enumerate(corpus):
-        check_program(ctx, store, desc, script, corpus_configs(producer_only=(j == 1)) if (thorough or j == 0) else corpus_configs(True)[:4])
+        cs = corpus_configs(producer_only=(j == 1))
+        if not thorough:
+            # quick tier: a seed-dependent half of the matrix for the long script, the tiny-cap corner for the producer-only one
+            cs = [c for k, c in enumerate(cs) if (k + ctx.seed) % 2 == 0] if j == 0 else [cs[0], cs[-1]]
+        check_program(ctx, store, desc, script, cs)
     d1 = corpus[0][0]
     p_script = [["open", "p", 0, 0], ["iter", None], ["close"]]
     x_script = [["open", "x", 0, BIG_PAD], ["send", 0, BIG_ROWS], ["send", 10, 2], ["send", 20, 2], ["close"]]
@@ -1041,16 +1045,16 @@ def _run(ctx: Any, rng: Any, store: extsvc.Store) -> None:
     for k, sp in enumerate(CORPUS_CORRUPTIONS):
         comp = [None, "zstd", "gzip"][k % 3]
         plan.append((p_script, ExtCfg("pipe", 0, comp, nosha=(k % 2 == 0)), sp))
-        if thorough or k % 3 == 0:
+        if thorough or (k + ctx.seed) % 4 == 0:
             plan.append((p_script, ExtCfg("http", 0, comp, nosha=(k % 2 == 1)), sp))
-        if thorough or k % 4 == 1:
+        if thorough or (k + ctx.seed) % 6 == 1:
             plan.append((x_script, ExtCfg("http-up", 0, comp, max_request_bytes=MAXREQ), {**sp, "index": k % 4}))
             plan.append((u_script, ExtCfg("http-up", 0, comp, max_request_bytes=MAXREQ, nosha=(k % 8 == 1)), {**sp, "index": k % 2}))
     cache: dict[str, Any] = {}
     for script, cfg, sp in plan:
         _corrupt_cached(ctx, store, d1, script, cfg, sp, cache)
     # ---- generated programs
-    for _ in range(ctx.budget(5, 150)):
+    for _ in range(ctx.budget(8, 150)):
         desc = gen_program(rng)
         script = gen_script(rng, desc)
         if not script:
@@ -1062,7 +1066,7 @@ def _run(ctx: Any, rng: Any, store: extsvc.Store) -> None:
                 check_program(ctx, store, desc, sc, configs_for(rng, desc, sc, full=False))
         # corruptions on single-call scripts of this program
         cache = {}
-        for _j in range(ctx.budget(4, 30)):
+        for _j in range(ctx.budget(6, 30)):
             client_side = rng.random() < 0.3
             scripts = single_call_scripts(desc, rng, client_side)
             script1 = rng.choice(scripts)
